@@ -182,6 +182,12 @@ Fixpoint row_subset (row presence : list bool) : bool :=
 
 (* ---------------- HostPool operations on the world ---------------- *)
 
+(* iterate an operation over all hosts, in order *)
+Fixpoint for_hosts (k n : nat) (f : nat -> W unit) : W unit :=
+  match n with O => ret tt | S n' => f k ;; for_hosts (S k) n' f end.
+Definition all_hosts (f : nat -> W unit) : W unit :=
+  let* n := num_hosts in for_hosts 0 n f.
+
 (* suitability_at of host k at cell i *)
 Definition suitability_at (g : config) (k i : nat) : W Q :=
   let* c := get_cell k i in
@@ -252,18 +258,31 @@ Fixpoint suitabilities (g : config) (i : nat) (k n : nat) : W (list Q) :=
   end.
 Definition qsum (l : list Q) : Q := fold_right Qplus 0%Q l.
 
+Definition host_field_at (f : cell -> Z) (i : nat) : W (list Z) :=
+  let* w := get in
+  lift (fold_right (fun h acc => do a <- acc; do c <- rget (hp_cells h) i; Ok (f c :: a))
+                   (Ok []) (w_hosts w)).
+
 (* MultiHostPool::disperser_to *)
 Definition multi_disperser_to (g : config) (i : nat) : W Z :=
   let* n := num_hosts in
   if Nat.eqb n 0 then fail UB_OutOfBounds else
   let* npop := total_population_at i in
   if npop =? 0 then
-    (* 0/0: the suitability is NaN, every comparison with it is false, a single
-       host is picked without a draw and returns 0 because it has no susceptible
-       host; with several hosts the weights of the discrete distribution are
-       NaN, which is outside the model *)
-    let* c := get_cell 0 i in
-    if Nat.eqb n 1 && (cS c <=? 0) then ret 0 else fail UB_OutOfBounds
+    (* no population at all: a host without susceptibles has suitability
+       0/0 = NaN; one with susceptibles has +infinity, which suitability_at
+       rejects unless a zero susceptibility or weather coefficient turns it
+       into NaN as well.  A NaN total is not greater than zero: nothing
+       establishes. *)
+    let* wz := (if g_weather g then let* wc := weather_at i in ret (Qeq_bool wc 0) else ret false) in
+    for_hosts 0 n (fun k =>
+      let* c := get_cell k i in
+      let* hc := host_cfg g k in
+      let sus_zero := match h_pht hc with Some (sus, _, _) => Qeq_bool sus 0 | None => false end in
+      if cS c =? 0 then ret tt
+      else if (cS c >? 0) && (sus_zero || wz) then ret tt
+      else fail InvalidArgument) ;;
+    ret 0
   else
   let* ws := suitabilities g i 0 n in
   let total := qsum ws in
@@ -305,12 +324,6 @@ Definition host_remove_by_ratio (k i : nat) (ratio : Q) : W unit :=
   host_remove_infected k i (ratio_removed (cI c) ratio) ;;
   let* c1 := get_cell k i in
   host_remove_exposed k i (ratio_removed (cTE c1) ratio).
-
-(* iterate an operation over all hosts, in order *)
-Fixpoint for_hosts (k n : nat) (f : nat -> W unit) : W unit :=
-  match n with O => ret tt | S n' => f k ;; for_hosts (S k) n' f end.
-Definition all_hosts (f : nat -> W unit) : W unit :=
-  let* n := num_hosts in for_hosts 0 n f.
 
 Definition suitable_cells : W (list (Z * Z)) :=
   let* h := get_host 0 in ret (hp_suitable h).
@@ -543,11 +556,6 @@ Definition act_soil_next (w : world) : world :=
   end.
 
 (* MultiHostPool::pests_from / pests_to *)
-Definition host_field_at (f : cell -> Z) (i : nat) : W (list Z) :=
-  let* w := get in
-  lift (fold_right (fun h acc => do a <- acc; do c <- rget (hp_cells h) i; Ok (f c :: a))
-                   (Ok []) (w_hosts w)).
-
 Definition multi_pests_from (i : nat) (count : Z) : W Z :=
   let* n := num_hosts in
   let* d := pop_draw n in
